@@ -1,1 +1,2 @@
 """Package that exhibits recorded defects (known findings); not part of the regular bounded cases."""
+from ._impl.hidden import relative_reexport as public_name
